@@ -8,6 +8,7 @@ structure S where
   swapOwner : List (String × String)            -- open swap sym ↦ owner
   transfers : List (String × String × Int)      -- origin transfer records: id ↦ (user, amount)
   lockIds : List String
+  answered : List String := []                  -- swaps answered here (units taken out of the given-out counter)
   feeSet : Bool := false                        -- a setFee has succeeded (own currency)
   share : Int := 0                              -- fee share in 1e-8
   feeAddr : Option String := none
@@ -62,14 +63,35 @@ def step (s : S) : List String → S × String
       if n ≤ 0 ∨ s.t.bal (tokK u) < n ∨ (s.swapOwner.any (·.1 = sym)) then (s, "err")
       else ({ s with t := tstep s.t (.escrowIn sym (tokK u) n), swapOwner := (sym, u) :: s.swapOwner }, "ok")
     | none => (s, "bad-op")
+  | ["swapanswer", sym, u, n] => match n.toInt? with
+    | some n =>
+      if n ≤ 0 ∨ s.t.bal givenK < n ∨ (s.swapOwner.any (·.1 = sym)) then (s, "err")
+      else ({ s with t := tstep s.t (.escrowIn sym givenK n), swapOwner := (sym, u) :: s.swapOwner, answered := sym :: s.answered }, "ok")
+    | none => (s, "bad-op")
+  | ["swapuserdone", sym] =>
+    -- the key completes an answered record only: the owner receives the units
+    match s.swapOwner.find? (·.1 = sym) with
+    | some (_, owner) =>
+      if s.answered.contains sym then
+        ({ s with t := tstep s.t (.escrowOut sym (tokK owner)), swapOwner := s.swapOwner.filter (·.1 ≠ sym),
+                  answered := s.answered.filter (· ≠ sym) }, "ok")
+      else (s, "err")
+    | none => (s, "err")
   | ["swapcancel", sym] =>
     match s.swapOwner.find? (·.1 = sym) with
     | some (_, owner) =>
-      ({ s with t := tstep s.t (.escrowOut sym (tokK owner)), swapOwner := s.swapOwner.filter (·.1 ≠ sym) }, "ok")
+      -- an answered record goes back to where its units came from: the given-out counter
+      let back := if s.answered.contains sym then givenK else tokK owner
+      ({ s with t := tstep s.t (.escrowOut sym back), swapOwner := s.swapOwner.filter (·.1 ≠ sym),
+                answered := s.answered.filter (· ≠ sym) }, "ok")
     | none => (s, "err")
   | ["swaprobotdone", sym] =>
     match s.swapOwner.find? (·.1 = sym) with
     | some _ =>
+      -- (an answered record closed by the robot's key list: token = destination, nothing is added)
+      if s.answered.contains sym then
+        ({ s with t := tstep s.t (.escrowOut sym givenK), swapOwner := s.swapOwner.filter (·.1 ≠ sym), answered := s.answered.filter (· ≠ sym) }, "ok")
+      else
       ({ s with t := tstep s.t (.escrowOut sym givenK), swapOwner := s.swapOwner.filter (·.1 ≠ sym) }, "ok")
     | none => (s, "err")
   | ["chfrom", id, u, n] => match n.toInt? with
@@ -80,6 +102,8 @@ def step (s : S) : List String → S × String
   | ["chcancel", id] =>
     match s.transfers.find? (·.1 = id) with
     | some (_, u, n) =>
+      -- (the refund comes out of the given-out counter, which answered swaps may have drawn on)
+      if s.t.bal givenK < n then (s, "err") else
       ({ s with t := tstep s.t (.move givenK (tokK u) n), transfers := s.transfers.filter (·.1 ≠ id) }, "ok")
     | none => (s, "err")
   | ["dump"] => (s, dump s)
